@@ -74,5 +74,18 @@ C09e C10
 C10e C08
 C11e C11
 C15e C15
+C01f C01
+C02f C02
+C02f C10
+C03f C03
+C05f C05
+C05f C06
+C06f C06
+C14f C14
+C17f C17
+C17f C10
+C19f C19
+C19f C02
+C09e C02
 LIST
 cat $out
